@@ -14,9 +14,10 @@
 //	D'  same on any-store storage (closed and reopened)                                                        route 4
 //	E   started at a prefix and caught up with RecordsAfter from an in-memory / any-store backed replica        route 5
 //	account replicas with other identities (owner, member, removed member)                                     route 6
+//	batch stream (batch.go): batches / sequences containing a record that must be rejected                     routes 7, 8
 //
-// Every delivery that is emitted is a CAdd case, every cross-replica comparison a CSame case, every end state a CFold
-// case of Run/C03_run.v; coqc checks them against Model/Acl.v (model_ok) and spec_C03_add / state equality (spec_ok).
+// Every delivery that is emitted is a CAdd case, every AddRawRecords call of the batch stream a CBatch case, every
+// cross-replica comparison a CSame case, every end state a CFold case of Run/C03_run.v; coqc checks them against Model/Acl.v (model_ok) and spec_C03_add / state equality (spec_ok).
 package main
 
 import (
@@ -48,7 +49,7 @@ var ctx = context.Background()
 type desc struct {
 	Seed    uint64   `json:"seed"`
 	Hist    int      `json:"hist"`
-	Kind    string   `json:"kind"` // add | same | fold
+	Kind    string   `json:"kind"` // add | same | fold | batch
 	Replica string   `json:"replica"`
 	Step    int      `json:"step"`
 	Rec     string   `json:"rec,omitempty"`
@@ -64,6 +65,7 @@ type runner struct {
 	o             vlib.Opts
 	samples       []interface{}
 	builderPanics []interface{}
+	batchTrials   int
 }
 
 type hrec struct {
@@ -320,6 +322,7 @@ func (rn *runner) history(seed uint64, idx int) {
 	}()
 	h.generate()
 	h.replicas()
+	h.batches(rn.batchTrials)
 }
 
 func main() {
@@ -331,12 +334,18 @@ func main() {
 		defer pprof.StopCPUProfile()
 	}
 	w := vlib.NewWriter(o.Out, "C03_run", 200)
-	rn := &runner{w: w, o: o}
+	rn := &runner{w: w, o: o, batchTrials: 3}
+	if o.Tier == "thorough" {
+		rn.batchTrials = 6
+	}
 	rule := "histories of 6-20 records made by the real AclRecordBuilder methods (all kinds incl. multi-content BuildBatchRequest) by 7 accounts " +
 		"(owner, admins, writers, readers, guests, joiners, removed and re-added members), consensus-signed by the harness, delivered to replicas " +
 		"A (validating, one by one, with 15 kinds of raw-record mutations and builder-refused records), B (AddRawRecords chunks), C (non-validating member, " +
 		"acceptor check + partial decode, 6 acceptor mutations), D/D' (rebuilt from in-memory / any-store storage at a prefix), E (RecordsAfter catch-up), " +
-		"account replicas; a CAdd case is non-trivial if the record is accepted with >= 1 content or is a mutation of an acceptable record; " +
+		"account replicas; batch stream: AddRawRecords batches [known records, 0-4 new valid records, a record that must be rejected, 0-2 valid continuation " +
+		"records] and the same sequence through AddRawRecord, where the rejected record is a hand-signed correctly chained record of 1-4 contents failing at " +
+		"content k (every k), a record failing late in apply, a raw mutation or a builder-refused record; compared with the one-at-a-time replica at the same " +
+		"head, with a rebuild from the replica's own storage and with the model's add_raws (CBatch); a CAdd case is non-trivial if the record is accepted with >= 1 content or is a mutation of an acceptable record; " +
 		"CSame/CFold if the history has >= 5 accepted records; distinct by full case term"
 	if o.Replay != "" {
 		seen := map[[2]uint64]bool{}
